@@ -2,7 +2,7 @@
    everything encoded as lists of integers so that the OCaml driver and the in-Coq re-evaluation
    (Eval vm_compute in run [...]) need no per-family glue. *)
 From Coq Require Import ZArith NArith List.
-From Cqos Require Import Base RateConv Float64 Divider Sched Utils Join JoinSim Limit LimitSim.
+From Cqos Require Import Base RateConv Float64 Divider Sched Utils Join JoinSim Limit LimitSim Prio2 Prio2Sim.
 Import ListNotations.
 Open Scope Z_scope.
 
@@ -157,6 +157,47 @@ Definition run_limit (args : list Z) : list Z :=
   | _ => [-99]
   end.
 
+(* ---- family 7: v2 priority driver script (see Prio2Sim.v)
+   [divider; H; fuel; 2n; (priority buffered)*n; 3m; (code arg settle)*m]
+   -> [0; per op: taken_p taken_x len(output) k (dividend len ps..)*k ...; closed; errcode]  or [-code] (constructor error) *)
+Fixpoint triples (l : list Z) : list (Z * Z * Z) :=
+  match l with a :: b :: c :: r => (a, b, c) :: triples r | _ => [] end.
+Definition enc_call (c : list N * N) : list Z := Z.of_N (snd c) :: Z.of_nat (length (fst c)) :: ns_to_zs (fst c).
+Fixpoint run_ops (base : Divider) (fuel : nat) (sm : psim) (ops : list (Z * Z * Z)) : list Z * psim :=
+  match ops with
+  | [] => ([], sm)
+  | (code, arg, stl) :: r =>
+      let before := length (calls (ps_st sm)) in
+      let '(sm1, (tp, tx)) := apply_op base fuel sm code arg (negb (stl =? 0)) in
+      let seg := rev (firstn (length (calls (ps_st sm1)) - before) (calls (ps_st sm1))) in
+      let '(rest, smf) := run_ops base fuel sm1 r in
+      ([Z.of_N tp; Z.of_N tx; Z.of_nat (length (outq (ps_st sm1))); Z.of_nat (length seg)] ++ flat_map enc_call seg ++ rest, smf)
+  end.
+Definition run_prio2 (args : list Z) : list Z :=
+  match args with
+  | kind :: h :: fuel :: r =>
+      let '(pb, r1) := take_list r in
+      let '(ops, _) := take_list r1 in
+      let cfgs := pairs pb in
+      let ps := map (fun x => Z.to_N (fst x)) cfgs in
+      let isbuf := fun p : N => existsb (fun x => andb (N.eqb (Z.to_N (fst x)) p) (negb (snd x =? 0))) cfgs in
+      let base := divider_of kind in
+      match new_v2 (fun _ => base) ps (Z.to_N h) isbuf with
+      | inr e => map Z.opp (run_new_code base ps (Z.to_N h))
+      | inl s0 =>
+          let s1 := sched_run (fun _ => base) (Z.to_nat fuel) false None s0 in
+          let '(out, smf) := run_ops base (Z.to_nat fuel) (mkPsim s1 [] 1 None) (triples ops) in
+          let fin := match pcs (ps_st smf) with
+                     | Done None => [1; 0]
+                     | Done (Some DividerBad) => [1; 1]
+                     | Done (Some SumOverflow) => [1; 2]
+                     | _ => [0; -1]
+                     end in
+          0 :: out ++ fin
+      end
+  | _ => [-99]
+  end.
+
 Definition run (args : list Z) : list Z :=
   match args with
   | 1 :: which :: rest => run_rate which rest
@@ -165,5 +206,6 @@ Definition run (args : list Z) : list Z :=
   | 4 :: rest => run_new rest
   | 5 :: rest => run_join rest
   | 6 :: rest => run_limit rest
+  | 7 :: rest => run_prio2 rest
   | _ => [-999]
   end.
